@@ -1,7 +1,7 @@
 #!/bin/bash
 # runall.sh [quick|thorough] : run every registered check on the current tree, one after the other; summary on stdout
 tier="${1:-quick}"
-cd /verif
+cd "$(dirname "$0")"
 for id in $(python3 -c "import json; print(' '.join(c['property_id'] for c in json.load(open('MANIFEST.json'))['checks']))"); do
   s=$(date +%s)
   out=$(./vcheck run $id --tier $tier 2>&1); rc=$?
